@@ -173,7 +173,7 @@ class _Scn(object):
             p = {'n': n, 'k': rnd.randint(kmin, n * (n - 1)), 'sz_cl': sz}
         elif g == 'makefractalCIJ':
             lv = rnd.randint(2, 3 if nmax <= 8 else 4)
-            p = {'mx_lvl': lv, 'E': rnd.choice((1.5, 2, 3, 4)), 'sz_cl': rnd.randint(1, lv)}
+            p = {'mx_lvl': lv, 'E': rnd.choice((1, 1.0, 1.5, 2, 3, 4)), 'sz_cl': rnd.randint(1, lv)}  # E = 1: no fall-off
         else:
             n = rnd.randint(3, nmax)
             dens = rnd.choice((0.15, 0.3, 0.5, 0.7))
